@@ -314,6 +314,14 @@ PipeReject(m) ==
   /\ hist' = H([a |-> "PipeReject", m |-> m])
   /\ UNCHANGED <<cfg, arg, held, exp, age, ops, sem, tab, fresh, extra, xfresh, devs, phase, obs>>
 
+\* endpoint/smtp/session.go:Mail: a second MAIL inside an open transaction (the pinned
+\* go-smtp forwards it to the session).  Design: refused with 503, the sender the permits
+\* were taken for stays; nothing about the limits changes.
+NestedMail(m, src2) ==
+  /\ Endp /\ phase = "run" /\ Ready /\ pc[m] = "idle" /\ held[m].msg
+  /\ hist' = H([a |-> "NestedMail", m |-> m, src |-> src2])
+  /\ UNCHANGED <<cfg, pc, arg, held, exp, age, res, ops, sem, tab, fresh, extra, xfresh, devs, phase, obs>>
+
 \* remoteDelivery.Close / Abort / Commit: ReleaseDest for every connection of the
 \* delivery (map order), then ReleaseMsg
 CallEnd(m) ==
@@ -444,7 +452,7 @@ Next ==
   \/ \E m \in Msgs, d \in Dsts : CallTakeDest(m, d) \/ CallRelDest(m, d) \/ MailReject(m, d)
                                   \/ CallTakeDestRefused(m, d)
   \/ \E m \in Msgs : CallEnd(m) \/ EndDst(m) \/ PipeReject(m)
-  \/ \E m \in Msgs, src2 \in Srcs : CallRelMsg(m, src2)
+  \/ \E m \in Msgs, src2 \in Srcs : CallRelMsg(m, src2) \/ NestedMail(m, src2)
   \/ Tick \/ Minute
   \/ \E m \in Msgs : Expire(m)
   \/ \E s \in BScopes : Fill(s)
